@@ -125,6 +125,7 @@ FEATURES: dict[str, float] = {
     # added later - keep new entries at the end: choose_features draws in this order
     "near_dup_const_rank": 0.20,  # Constants/initializers equal in dtype and bytes, differing in rank: (), (1,), (1,1)
     "dup_init_is_input": 0.20,  # an initializer that is ALSO a graph input, listed before an identical plain initializer
+    "fn_called_from_subgraph": 0.20,  # a function whose only call sits in an If branch / Loop body (of another function's body)
 }
 _FN_FEATURES = ("fn", "fn_attr", "fn_default_used", "fn_nested", "fn_overload")
 DUPLICATE_FEATURES = frozenset(
@@ -610,14 +611,14 @@ class _Builder:
                 if extra is not outs[0]:
                     outs.append(extra)
         opsets = {"": self.opset}
-        for n in sc.nodes:
-            if n.domain:
-                opsets[n.domain] = 1
         if "unused_opset" in self.feats and rng.random() < 0.5:
             opsets["vf.unused"] = 1
             self.model_opsets["vf.unused"] = 1
         g = ir.Graph([t.v for t in sc.inputs], [t.v for t in outs], nodes=sc.nodes, opset_imports=opsets,
                      name=self.fresh("fg"))
+        for n in ir.traversal.RecursiveGraphIterator(g):  # calls may sit inside control-flow subgraphs of the body
+            if n.domain:
+                g.opset_imports[n.domain] = 1
         decl = []
         for an, (kind, default) in attrs.items():
             ty = ir.AttributeType.FLOAT if kind == "f" else ir.AttributeType.INT
@@ -870,6 +871,55 @@ class _Builder:
             made.append(w)
         for w, op in zip(made, dec.sample(["Add", "Mul", "Sub"], 2)):
             self.observe += self.emit(m, op, [x, w], None, [(dt, (2, 3))])
+
+    def plant_fn_called_from_subgraph(self, rng):
+        """A model-local function whose ONLY call site is inside a control-flow subgraph: of the body of
+        another (used) function, of the main graph, or at the end of a three-deep chain
+        main -> A{If: B{If: C}}."""
+        dec = random.Random(rng.random())
+        m = self.main
+        variant = dec.choice(["in_fn_branch", "in_fn_branch", "chain3", "in_main_branch", "in_main_loop"])
+
+        def leaf() -> _Fn:
+            op = dec.choice(["Neg", "Abs", "Relu"])
+
+            def body(s):
+                t = self.emit(s, op, [s.inputs[0]])[0]
+                return [self.emit(s, "Add", [t, s.inputs[0]])[0]]
+            return self.gen_function(rng, in_types=[(F32, (2, 3))], with_attrs=False, body_hook=body)
+
+        def caller_of(callee: _Fn) -> _Fn:
+            """f(x, cond) = If(cond){callee(x...)}{Relu(x)} - the call is not a top-level node of the body."""
+            flip = dec.random() < 0.4
+
+            def body(s):
+                x, cond = s.inputs[0], s.inputs[1]
+
+                def calls(b):
+                    return [self.gen_call(b, rng, callee, inputs=[x, cond][: len(callee.in_types)], typed=True)[0]]
+
+                def plain(b):
+                    return [self.emit(b, "Relu", [x], typed=True)[0]]
+                hooks = [plain, calls] if flip else [calls, plain]
+                out = self.gen_if(s, rng, then_hook=hooks[0], else_hook=hooks[1], out_types=[(F32, (2, 3))])[0]
+                return [self.emit(s, "Neg", [out])[0]] if dec.random() < 0.5 else [out]
+            return self.gen_function(rng, in_types=[(F32, (2, 3)), (BOOL, ())], with_attrs=False, body_hook=body)
+
+        x = self._x(rng)
+        if variant in ("in_fn_branch", "chain3"):
+            fn = caller_of(leaf())
+            if variant == "chain3":
+                fn = caller_of(fn)
+            cond = self.bool_scalar(m, rng)
+            self.observe += self.gen_call(m, rng, fn, inputs=[x, cond]) or []
+        elif variant == "in_main_branch":
+            callee = leaf()
+            self.observe += self.gen_if(m, rng, then_hook=lambda b: [self.gen_call(b, rng, callee, inputs=[x], typed=True)[0]],
+                                        out_types=[(F32, (2, 3))])
+        else:
+            callee = leaf()
+            self.observe += self.gen_loop(m, rng, v0=x, body_hook=lambda b, v_in: self.gen_call(
+                b, rng, callee, inputs=[v_in], typed=True)[0])
 
     def plant_out_alias_input(self, rng):
         dec = random.Random(rng.random())  # variant decisions: independent of pool sizes
@@ -1209,7 +1259,7 @@ class _Builder:
         "identity_io_shadow", "identity_rename_shadow", "cse_rename_shadow", "identity_outer_branch", "identity_input_branch", "identity_in_branch", "captured_only", "const_in_branch",
         "subgraph_init", "sibling_init_name", "optional_io", "bn_training", "fn_alias", "fn_alias_branch",
         "fn_names_shadow", "fn_named_identity", "unused_node", "unused_fn", "unused_opset", "unused_init",
-        "near_dup_const_rank", "dup_init_is_input", "out_alias_input", "out_init", "out_dup",
+        "near_dup_const_rank", "dup_init_is_input", "fn_called_from_subgraph", "out_alias_input", "out_init", "out_dup",
     ]
 
     def build(self) -> tuple[ir.Model, dict]:
